@@ -702,6 +702,16 @@ func (m *Module) renderInjectors(p *Pkg) []world.File {
 		if n == 0 {
 			continue
 		}
+		if file == 1 {
+			// a function-local variable called like a package-level provider-set variable; inject_1.go sorts BEFORE
+			// types.go, where the set is declared, so only another file order could let it get in the set's way
+			for _, st := range m.Sets {
+				if st.Pkg == p.Idx && st.AliasOf == 0 {
+					fmt.Fprintf(&b, "// local%s is copied into the generated file.\nfunc local%s(n int) int {\n\tvar %s = n + 1\n\treturn %s\n}\n\n", st.Name, st.Name, st.Name, st.Name)
+					break
+				}
+			}
+		}
 		if file == 0 && p.CopyFns >= 2 {
 			// other kinds of declarations wire copies into the generated file
 			fmt.Fprintf(&b, "// copiedT%d is copied into the generated file.\ntype copiedT%d struct{ cleanup, err int }\n\nconst copiedC%d = %d\n\nvar copiedV%d = copiedT%d{cleanup: copiedC%d}\n\n", p.Idx, p.Idx, p.Idx, p.Idx+3, p.Idx, p.Idx, p.Idx)
@@ -719,17 +729,7 @@ func (m *Module) renderInjectors(p *Pkg) []world.File {
 						extraSum += " + " + o.Name
 					}
 				}
-				localSet := ""
-				if i == 0 {
-					for _, st := range m.Sets {
-						if st.Pkg == p.Idx && st.AliasOf == 0 {
-							// a function-local variable called like a package-level provider-set variable of another file
-							localSet = fmt.Sprintf("\tvar %s = err + 1\n\terr += %s\n", st.Name, st.Name)
-							break
-						}
-					}
-				}
-				shadow := localSet
+				shadow := ""
 				if extraParams != "" {
 					// the same colliding name declared again in nested scopes: several distinct objects with one
 					// name inside ONE copied declaration, each of which needs its own new name
